@@ -2239,9 +2239,31 @@ def service_threads(ctx):
     return svc
 
 
+def lock_is_free(th):
+    """innermost frame in nfc code and no progress: the thread waits for a lock (`with self.lock`) or is merely not
+    scheduled (loaded machine).  True when every lock that frame can be waiting for (lock attribute of `self`, of its
+    llc) is demonstrably unowned: then the thread is not blocked, only starved -> no verdict, sample again."""
+    f = sys._current_frames().get(th.ident)
+    if f is None:
+        return False
+    obj = f.f_locals.get("self")
+    del f
+    locks = [getattr(obj, "lock", None), getattr(getattr(obj, "llc", None), "lock", None)]
+    locks = [getattr(x, "_real", x) for x in locks if x is not None]
+    if not locks:
+        return False
+    try:
+        return all(repr(x).startswith("<unlocked ") for x in locks)
+    except Exception:
+        return False
+
+
 def flag_blocked(ctx, res, th, info, phase):
     """a quiescent thread: violation if it is blocked forever inside nfc"""
     d = ctx.desc
+    if info.kind == "lock-or-c-call-in-nfc" and lock_is_free(th):
+        res.count("lock_verdicts_withdrawn_lock_is_free")
+        return None
     if isinstance(th, Worker):
         end = th.end
         cur = th.cur
@@ -2496,6 +2518,12 @@ def finish_case(ctx, env, res):
         # critical section: the parked thread owns a socket lock the shutdown needs) is judged only after that thread
         # has been let go - never by which of the two harness mechanisms happened to be scheduled first
         res.count("run_loops_rejudged_after_release_of_parked_thread")
+        status, infos = env.q.wait(lambda: runs)
+        res.count("quiescence_waits")
+    for _ in range(3):                           # "blocked on a lock" that turned out to be free: starved, wait again
+        if status == "done" or not any(i.kind == "lock-or-c-call-in-nfc" and lock_is_free(t) for t, i in infos.items()):
+            break
+        res.count("lock_verdicts_withdrawn_lock_is_free")
         status, infos = env.q.wait(lambda: runs)
         res.count("quiescence_waits")
     if ctx.hold_state.get("lock_conflict"):
